@@ -175,7 +175,7 @@ static bool set_item (SNDFILE *f, int item, Meta &m)
 	}
 }
 
-struct Written { MemFile file ; int accepted = 0 ; } ;
+struct Written { MemFile file ; int accepted = 0 ; int late_str_type = 0 ; std::string late_str ; } ;
 
 static std::string write_file (Written &w, const OpenSpec &s, int items, Meta &m, uint64_t order, const std::vector<short> &audio, long long frames, int late, int late_items, bool preset = false)
 {	SNDFILE *f = open_write_mem (w.file, s) ; if (!f) return std::string ("open_write_failed: ") + sf_strerror (nullptr) ;
@@ -199,6 +199,16 @@ static std::string write_file (Written &w, const OpenSpec &s, int items, Meta &m
 	{	Meta other ; Case c2 ; c2.seti ("seed", 424242) ; c2.seti ("strlen", 3) ; c2.seti ("hist", 2) ; c2.seti ("ncue", 3) ; c2.seti ("nloop", 1) ; c2.seti ("frames", frames) ;
 		gen_meta (other, c2, s.format & SF_FORMAT_TYPEMASK, s.ch) ;
 		for (int bit = 2 ; bit <= 32 ; bit <<= 1) if (late_items & bit) set_item (f, bit, other) ;	// must be refused or ignored (strings may legally be appended at the end: not part of the late set)
+		// a string after the audio: sf_set_string either refuses it (container without end-of-file strings) or returns 0, and what it
+		// accepted must be there after re-open (the library's own contract: SF_STR_ALLOW_END / SFE_STR_NO_ADD_END)
+		if (late_items)
+			for (int t : string_types (s.format & SF_FORMAT_TYPEMASK))
+			{	bool used = t == SF_STR_SOFTWARE || t == m.odd_string.first ; for (auto &st : m.strings) if (st.first == t) used = true ;
+				if (used) continue ;
+				std::string txt = "late " + std::to_string (t) + " " + gen_text (r, 1 + r.below (40), false) ;
+				if (sf_set_string (f, t, txt.c_str ()) == 0) { w.late_str_type = t ; w.late_str = txt ; }
+				break ;
+			}
 	}
 	if (sf_close (f) != 0) return "close_failed" ;
 	return "" ;
@@ -242,6 +252,10 @@ static Result run_case (const Case &c)
 		if (!got) { flag ("string_lost", I_STR, "type " + std::to_string (st.first) + " length " + std::to_string (st.second.size ())) ; continue ; }
 		if (st.first == SF_STR_SOFTWARE) { if (strncmp (got, st.second.c_str (), st.second.size ()) != 0 || strstr (got, "libsndfile") == nullptr) { bool na = false ; for (unsigned char ch2 : st.second) if (ch2 >= 0x80) na = true ; res.sig.seti ("nonascii", na) ; res.sig.seti ("strtype", st.first) ; flag ("string_changed", I_STR, "software string set '" + st.second.substr (0, 70) + "' got '" + std::string (got).substr (0, 110) + "'") ; } }
 		else if (st.second != got) { bool na = false ; for (unsigned char ch2 : st.second) if (ch2 >= 0x80) na = true ; res.sig.seti ("strtype", st.first) ; res.sig.seti ("nonascii", na) ; size_t i = 0 ; while (i < st.second.size () && st.second [i] == got [i]) i ++ ; flag ("string_changed", I_STR, "type " + std::to_string (st.first) + " length " + std::to_string (st.second.size ()) + " came back with length " + std::to_string (strlen (got)) + ", first difference at " + std::to_string (i) + ": set " + hex (st.second.data () + i, std::min<size_t> (4, st.second.size () - i)) + " got " + hex (got + i, std::min<size_t> (4, strlen (got + i)))) ; }
+	}
+	if (real.late_str_type)
+	{	const char *got = sf_get_string (g, real.late_str_type) ; r.classes.push_back ("late_string:accepted") ;
+		if (!got || real.late_str != got) flag ("late_string_accepted_but_lost", I_STR, "type " + std::to_string (real.late_str_type) + " set after the audio, sf_set_string returned 0, re-open gives " + (got ? std::string ("'") + got + "'" : std::string ("nothing"))) ;
 	}
 	// bext
 	{	SF_BROADCAST_INFO gb ; memset (&gb, 0, sizeof (gb)) ; int rc = sf_command (g, SFC_GET_BROADCAST_INFO, &gb, sizeof (gb)) ;
